@@ -25,6 +25,11 @@ CUSTOMS = {
     "MyPerm3": {"matrix": [[("1" if (c == (r + 1) % 8) else "0") for c in range(8)] for r in range(8)], "params": []},
     "MyNonUnitary": {"matrix": [["1", "1/2"], ["0", "1"]], "params": []},
 }
+# a Hadamard typed in with six digits: unitary only to 6e-7 - the Wavefunction class accepts what it produces,
+# numpy's sampler does not.  Only used by steps that ask for it by name (never drawn by the random generators).
+CUSTOMS_EXTRA = {
+    "MyRoundedH": {"matrix": [["0.707107", "0.707107"], ["0.707107", "-0.707107"]], "params": []},
+}
 
 
 # ---------------------------------------------------------------- builders
@@ -94,7 +99,7 @@ def custom_def(name):
 
     key = (name, _variant[0])
     if key not in _custom_cache:
-        d = (CUSTOMS_ALT if _variant[0] else CUSTOMS)[name]
+        d = CUSTOMS_EXTRA[name] if name in CUSTOMS_EXTRA else (CUSTOMS_ALT if _variant[0] else CUSTOMS)[name]
         syms = [sympy.Symbol(p) for p in d["params"]]
         loc = {p: s for p, s in zip(d["params"], syms)}
         mat = sympy.Matrix([[sympy.sympify(e, locals=loc) for e in row] for row in d["matrix"]])
@@ -135,7 +140,7 @@ def gate_arity(g):
     if "g" in g:
         return BUILTIN[g["g"]][0]
     if "custom" in g:
-        return int(math.log2(len(CUSTOMS[g["custom"]]["matrix"])))
+        return int(math.log2(len({**CUSTOMS, **CUSTOMS_EXTRA}[g["custom"]]["matrix"])))
     return gate_arity(g["of"]) + (g["n"] if g["w"] == "ctrl" else 0)
 
 
